@@ -111,7 +111,22 @@ func scenarioC18(r *Run) {
 	// a shared key, a shared envelope, shared signer
 	ks := genKeySpec(t)
 	var sharedKey *cose.Key
-	{
+	if t.Bool(1, 2, "c18.key.converted") {
+		// a key converted from a Go key: coordinates in minimal form in memory
+		// (searched for leading zeros), the form MarshalCBOR has to pad
+		fk := freshECKey(t)
+		var ck *cose.Key
+		var err error
+		if t.Bool(1, 2, "c18.key.private") {
+			r.Lib(func() { ck, err = cose.NewKeyFromPrivate(fk.Priv) })
+		} else {
+			r.Lib(func() { ck, err = cose.NewKeyFromPublic(fk.Pub) })
+		}
+		if err == nil {
+			sharedKey = ck
+			r.Probe("shared-key-converted-from-go-key")
+		}
+	} else {
 		var k cose.Key
 		var err error
 		kb := ks.Bytes()
